@@ -469,8 +469,9 @@ func (f *frame) intrinsic(n *node, callee *ssa.Function, args []Val) (Val, bool)
 		if sk != nil && (len(cs) != 1 || g.InQuant()) {
 			sk = nil
 		}
-		g.n++
-		bv := fmt.Sprintf("q!%d", g.n)
+		// the bound variable is named by nesting depth, so that two evaluations of the same
+		// quantified formula over the same state give the same text (and one shared term)
+		bv := fmt.Sprintf("q!d%d", g.QuantDepth())
 		if sk != nil {
 			bv = g.Const("forall."+cl.Fn.Params[0].Name(), cs[0].sort)
 			sk.name, sk.sort, sk.v = bv, cs[0].sort, Val{T: pt, C: []string{bv}}
